@@ -301,4 +301,53 @@ example : relabelF [3, 4, 5, 0, 1, 2] (fun ct => if ct = "TRIANGLE" then [1, 0] 
     baseHyp hDemo twinA = false := by
   decide +kernel
 
+/-! ### a data set without coincident points: `C02_no_false_fail_continuous` applies with NO extra assumption -/
+
+/-- the unit square cut into two triangles, one point value per corner, one cell value per triangle -/
+def sqA : MeshFields :=
+  ⟨{ dim := 2, points := [[0, 0], [one, 0], [one, one], [0, one]], cells := [("TRIANGLE", [[0, 1, 2], [0, 2, 3]])] },
+   [⟨"p", ⟨.flt f64, [4], [1 * one, 2 * one, 3 * one, 4 * one]⟩⟩],
+   [⟨"c", "TRIANGLE", ⟨.int true 64, [2], [10, 20]⟩⟩]⟩
+
+theorem sqA_sortIdx : sortPointsIdx argsortStable (meshTolOf sqA.mesh) (baseOf sqA).mesh = some [0, 3, 1, 2] := by
+  have hp : pointHyp (meshTolOf sqA.mesh) (baseOf sqA).mesh = true := by decide +kernel
+  rw [← (C02_sort_points_canonical isArgsort_ins hp).1]
+  decide +kernel
+
+theorem sqA_baseHyp : baseHyp hDemo sqA = true := by
+  simp only [baseHyp, sqA_sortIdx]
+  decide +kernel
+
+theorem sqA_continuous : continuousHyp sqA = true := by decide +kernel
+
+theorem sqκ_ok : CellMapsOk sqA wκ := by
+  intro ct
+  by_cases e : ct = "TRIANGLE"
+  · subst e; decide
+  · have hne : (("TRIANGLE" : String) == ct) = false := by
+      simp only [beq_eq_false_iff_ne, ne_eq]
+      exact fun h => e h.symm
+    have h0 : sqA.mesh.cellsOf ct = [] := by
+      unfold Mesh.cellsOf
+      simp [sqA, hne]
+    simp [wκ, e, h0]
+
+/-- every hypothesis is discharged by evaluation; the conclusion holds for two different argsorts,
+    in both roles, for the relabelling `ρ = [2,0,3,1]`, cells exchanged -/
+example : ladderPasses (ladder argsortStable argsortInsRev hDemo {} (relabelF [2, 0, 3, 1] wκ sqA) sqA) = true ∧
+    ladderPasses (ladder argsortStable argsortInsRev hDemo {} sqA (relabelF [2, 0, 3, 1] wκ sqA)) = true :=
+  C02_no_false_fail_continuous isArgsort_stable isArgsort_insRev sqA_baseHyp sqA_continuous (by decide) sqκ_ok
+
+/-- the relabelled data set, and the model's verdict evaluated directly (kernel-reducible argsorts) -/
+example : relabelF [2, 0, 3, 1] wκ sqA =
+    ⟨{ dim := 2, points := [[one, one], [0, 0], [0, one], [one, 0]], cells := [("TRIANGLE", [[1, 0, 2], [1, 3, 0]])] },
+     [⟨"p", ⟨.flt f64, [4], [3 * one, 1 * one, 4 * one, 2 * one]⟩⟩],
+     [⟨"c", "TRIANGLE", ⟨.int true 64, [2], [20, 10]⟩⟩]⟩ ∧
+    ladder argsortIns argsortInsRev hDemo {} (relabelF [2, 0, 3, 1] wκ sqA) sqA =
+      .done 3 ⟨true, [("p", "", .passed), ("c", "TRIANGLE", .passed)]⟩ := by
+  decide +kernel
+
+/-- `wA` (coincident points on the diagonal) is outside `continuousHyp` -/
+example : continuousHyp wA = false := by decide +kernel
+
 end Fc.C02.Witness
